@@ -142,8 +142,8 @@ func (g *ExprGen) Gen(t Type, depth int) Expr {
 		case 2, 3:
 			return &EBin{"~", g.Scalar(d), g.Scalar(d)}
 		case 4:
-			if g.inInterp > 0 {
-				return g.leaf(TStr)
+			if g.inInterp > 2 {
+				return g.leaf(TStr) // interpolated strings nest (three levels are enough)
 			}
 			g.inInterp++
 			a, b := g.Scalar(d), g.Scalar(d)
